@@ -7,9 +7,10 @@ lines = ["### 8.6 Kill matrix", "",
          "Produced by `tools/killmatrix.py --tests` (every change applied to a scratch worktree of /repo HEAD, the quick",
          "check of the property run against it with `VERIF_REPO_SRC`, and the repository's own tests run on the changed",
          "tree). `mutant` = hand-written (`tools/mutants/<name>.diff`), `seeded` = written by an independent sub-agent that",
-         "saw only the property text (`seeded/<id>/`: two rounds per property, `Cxx` and `Cxxb`, and a file-targeted round",
-         "`Fxx` in which the author also guessed further properties; a `(S, guess)` is such a guess that the demo does not",
-         "substantiate). Full rows incl. the first violation",
+         "saw only the property text (`seeded/<id>/`: four rounds per property, `Cxx`, `Cxxb`, `Cxxc`, `Cxxd`, a fifth `Cxxe` for ten",
+         "properties, and a file-targeted round `Fxx` in which the author also guessed further properties; a `(S, guess)` is",
+         "such a guess that the demo does not substantiate; rounds c-e were run through tools/seedcheck.py and imported).",
+         "Full rows incl. the first violation",
          "reported are in `seeded/KILLMATRIX.md`.", ""]
 by = {}
 for k, v in km.items():
@@ -62,8 +63,12 @@ with open(os.path.join(root, "seeded", "KILLMATRIX.md"), "w") as f:
 text = "\n".join(lines) + "\n"
 p = os.path.join(root, "DESIGN.md")
 s = open(p).read()
+tail = ""
 if "### 8.6 Kill matrix" in s:
+    rest = s[s.index("### 8.6 Kill matrix"):]
     s = s[:s.index("### 8.6 Kill matrix")]
-s = s.rstrip("\n") + "\n\n" + text
+    if "\n### 8.7 " in rest:
+        tail = rest[rest.index("\n### 8.7 "):]   # later sections are kept
+s = s.rstrip("\n") + "\n\n" + text + tail
 open(p, "w").write(s)
 print("8.6 written:", tot)
